@@ -6,6 +6,7 @@ package main
 import (
 	"bytes"
 	"context"
+	"errors"
 	"fmt"
 	"go/ast"
 	"io"
@@ -359,6 +360,64 @@ func run(c *hc.Ctx) error {
 			res := c16c17.ReadOne(dc, bytes.NewReader(restBytes))
 			if !bytes.Equal(res.Frame, p) {
 				fail(c, "detect-read:"+kind, "detect "+hc.Hex(stream), "first frame after detection: "+res.Outcome)
+			}
+		}
+	}
+
+	// ---- 4b. explicit protocol: Codec.ReadHeader / transport.ListenCodec
+	for i := 0; i < c.N(300, 10000); i++ {
+		kind := hc.Pick(r, c16c17.Kinds...)
+		var wire bytes.Buffer
+		cd := c16c17.NewCodec(kind, 0)
+		cd.WriteHeader(&wire)
+		p := genPayload(r, 4*r.Range(2, 100))
+		writeOne(kind, cd, &wire, append([]byte{}, p...), r.Bytes(4))
+		stream := append([]byte{}, wire.Bytes()...)
+		how := "right"
+		switch r.Intn(5) {
+		case 0:
+			if len(stream) > 0 {
+				stream[r.Intn(min(4, len(stream)))] ^= byte(1 << r.Intn(8))
+				how = "bitflip"
+			}
+		case 1:
+			stream = stream[:r.Intn(min(5, len(stream)+1))]
+			how = "short"
+		case 2:
+			other := hc.Pick(r, c16c17.Kinds...)
+			var w2 bytes.Buffer
+			c16c17.NewCodec(other, 0).WriteHeader(&w2)
+			stream = append(w2.Bytes(), p...)
+			how = "other-protocol"
+		}
+		first := stream[:min(len(stream), 8)]
+		line := fmt.Sprintf("rdhdr %s %s", kind, hc.Hex(first))
+		c.Eval(fmt.Sprintf("rdhdr %s %s", kind, hc.Hex(stream)), true)
+		c.Count("rdhdr." + kind + "." + how)
+		rd := &c16c17.Chunked{Data: stream, Rng: r.Fork(), Mode: r.Intn(3)}
+		err := c16c17.NewCodec(kind, 0).ReadHeader(rd)
+		out := ""
+		switch {
+		case err == nil:
+			out = fmt.Sprintf("ok %d", len(first)-rd.Pos)
+		case errors.Is(err, codec.ErrProtocolHeaderMismatch):
+			out = "err header"
+		default:
+			out = "err " + codec.VerifC17ErrClass(err)
+		}
+		add(line, out)
+		if how == "right" {
+			// monitor: the listener with an explicit codec accepts and delivers the frame
+			ln := &memListener{ch: make(chan net.Conn, 1)}
+			ln.ch <- &memConn{rd: bytes.NewReader(stream)}
+			conn, err := transport.ListenCodec(func() transport.Codec { return c16c17.NewCodec(kind, 0) }, ln).Accept()
+			if err != nil {
+				fail(c, "listen-codec:"+kind, line, "ListenCodec rejected the header its own codec wrote: "+err.Error())
+				continue
+			}
+			var b bin.Buffer
+			if err := conn.Recv(context.Background(), &b); err != nil || !bytes.Equal(b.Buf, p) {
+				fail(c, "listen-codec:"+kind, line, fmt.Sprintf("first frame after the header: err=%v", err))
 			}
 		}
 	}
